@@ -280,7 +280,7 @@ def job_attr(states, depth, deep_from_initial):
             for seq in itertools.product(ev, repeat=d):
                 t.c["transitions"] += 1
                 core.guard(t, "C20", {"engine": "E2", "module": MOD, "part": "attributes", "witness": [list(w) for w in witness],
-                                      "events": [list(e) for e in seq]}, run_sequence, t, witness, seq)
+                                      "events": [list(e) for e in seq]}, run_sequence, t, witness, seq, _limit=10)
         t.obs(("attr", key, t.c["evaluations"]))
     if deep_from_initial:
         for seq in itertools.product(ev, repeat=depth + 1):
@@ -288,7 +288,7 @@ def job_attr(states, depth, deep_from_initial):
                 continue
             t.c["transitions"] += 1
             core.guard(t, "C20", {"engine": "E2", "module": MOD, "part": "attributes", "witness": [], "events": [list(e) for e in seq]},
-                       run_sequence, t, (), seq)
+                       run_sequence, t, (), seq, _limit=10)
     t.sample({"universe": "a,b: Node; c -> a; d -> c (link to link); e -> b (other tree)",
               "events": [list(e) for e in ev[:3] + ev[-4:]]}, cap=1)
     return t
